@@ -14,6 +14,7 @@ type Val struct {
 	T       Term
 	Ty      types.Type
 	Loc     *Addr // located struct/array value (T unused)
+	From    *Addr // the location this value was read from (for modifies clauses)
 	Cell    *Addr // a variable that lives in a cell: read in the state of evaluation (so old(v) works)
 	Ptr     *Addr // pointer argument that is the address of a caller's field/element: *p is that location
 	Nil     bool
@@ -29,6 +30,7 @@ type Env struct {
 	pure bool // inside a define: no state access
 	qdepth int // >0 inside a (non-unrolled) quantifier
 	visitedHeap string // range-over-map loop: heap holding the set of keys already iterated
+	abs    bool      // re-base quantified array reads to the bound variable (assumption rendering)
 	unroll bool      // render literal-range quantifiers as conjunctions (candidate-model rendering)
 	reads  *[]string // inside a define body: seq element reads (in terms of the parameters)
 }
@@ -59,7 +61,10 @@ func (e *Env) with(name string, v Val) *Env {
 
 // Cl is a clause in two renderings: Q keeps quantifiers (used for proving),
 // U unrolls literal-range quantifiers (used to search for candidate counter-models).
-type Cl struct{ Q, U string }
+// A is Q with array reads at `offset + bound variable` re-based to the bound
+// variable itself (better triggers); it is added next to Q when the clause is
+// assumed, never used as the goal.
+type Cl struct{ Q, U, A string }
 
 func (e *Env) evalClause(x SExpr) (Cl, error) {
 	eq := *e
@@ -74,7 +79,17 @@ func (e *Env) evalClause(x SExpr) (Cl, error) {
 	if err != nil {
 		return Cl{}, err
 	}
-	return Cl{q, u}, nil
+	ea := *e
+	ea.unroll = false
+	ea.abs = true
+	a, err := ea.evalBool(x)
+	if err != nil {
+		return Cl{}, err
+	}
+	if a == q {
+		a = ""
+	}
+	return Cl{q, u, a}, nil
 }
 
 // evalBool evaluates a clause to a Bool term; errors are returned.
@@ -422,7 +437,7 @@ func (e *Env) fieldOfLoc(sty types.Type, i int, obj string) Val {
 	if e.cur == nil {
 		efail("state access in pure context")
 	}
-	return Val{T: t.load(e.cur, a), Ty: ft}
+	return Val{T: t.load(e.cur, a), Ty: ft, From: a}
 }
 
 func (e *Env) index(x *SIndex) Val {
@@ -682,7 +697,7 @@ func (e *Env) quant(x *SQuant) Val {
 	for _, bd := range binders {
 		names = append(names, strings.Fields(strings.Trim(bd, "()"))[0])
 	}
-	if x.Forall && len(x.Triggers) == 0 {
+	if x.Forall && len(x.Triggers) == 0 && e.abs {
 		for i, bd := range binders {
 			if strings.HasSuffix(bd, " Int)") {
 				if nb, ok := absolutize(b, names[i]); ok {
@@ -694,7 +709,7 @@ func (e *Env) quant(x *SQuant) Val {
 	if len(x.Triggers) > 0 {
 		var ts []string
 		for _, tr := range x.Triggers {
-			ts = append(ts, ne.rvalue(ne.eval(tr)).T.S)
+			ts = append(ts, rawStringFuns(ne.rvalue(ne.eval(tr)).T.S))
 		}
 		return boolVal(fmt.Sprintf("(%s (%s) (! %s :pattern (%s)))", q, strings.Join(binders, " "), b, strings.Join(ts, " ")))
 	}
@@ -1232,5 +1247,5 @@ func substTokens(s string, pairs []string) string {
 
 func (t *Tr) declSubstr() {
 	t.vc.needStr()
-	t.vc.declFun("substr", "(declare-fun substr (Int Int Int) Int)\n(assert (forall ((s Int) (a Int) (b Int)) (! (=> (and (<= 0 a) (<= a b) (<= b (strlen s))) (= (strlen (substr s a b)) (- b a))) :pattern ((substr s a b)))))\n(assert (forall ((s Int) (a Int) (b Int) (i Int)) (! (=> (and (<= 0 a) (<= a b) (<= b (strlen s)) (<= 0 i) (< i (- b a))) (= (strat (substr s a b) i) (strat s (+ a i)))) :pattern ((strat (substr s a b) i)))))\n(assert (forall ((s Int)) (! (= (substr s 0 (strlen s)) s) :pattern ((substr s 0 (strlen s))))))")
+	t.vc.declFun("substr", "(declare-fun substr (Int Int Int) Int)\n(assert (forall ((s Int) (a Int) (b Int)) (! (=> (and (<= 0 a) (<= a b) (<= b (strlen s))) (= (strlen (substr s a b)) (- b a))) :pattern ((substr s a b)))))\n(assert (forall ((s Int) (a Int) (b Int) (i Int)) (! (=> (and (<= 0 a) (<= a b) (<= b (strlen s)) (<= 0 i) (< i (- b a))) (= (strat (substr s a b) i) (strat s (+ a i)))) :pattern ((strat_raw (substr s a b) i)))))\n(assert (forall ((s Int)) (! (= (substr s 0 (strlen s)) s) :pattern ((substr s 0 (abs (strlen_raw s)))))))")
 }
